@@ -40,6 +40,13 @@ pub struct CloneCase {
 pub struct Clones;
 
 /// run one script against an archive handle; `gate` is called before every step (the scheduler's hook)
+/// The harness must build whatever the auto traits of `ZipArchive` are: whether the handle is `Send + Sync`
+/// is decided by the compile-time probe crate (part C), which reports a violation instead of a build failure
+/// of the whole harness. Moving a handle to its own thread is sound here in any case for part A (exactly one
+/// thread runs at a time and every hand-over goes through a channel).
+pub struct ForceSend<T>(pub T);
+unsafe impl<T> Send for ForceSend<T> {}
+
 pub fn run_script(ar: &mut ZipArchive<SimDisk>, script: &[CStep], names: &[String], gate: &mut dyn FnMut()) -> Vec<String> {
     let mut log: Vec<String> = vec![];
     let mut i = 0usize;
@@ -241,11 +248,12 @@ impl Scenario for Clones {
             let (tx, rx) = mpsc::channel::<()>();
             go_tx.push(tx);
             // every clone gets its own cloned reader (own cursor, own policy engine instance)
-            let mut ar = base.clone();
+            let mut ar = ForceSend(base.clone());
             let sc = sc.clone();
             let names = names.clone();
             let done = done_tx.clone();
             joins.push(std::thread::spawn(move || {
+                let ar = &mut { ar }.0;
                 // wait to be scheduled for the first step; every later step hands the baton back first
                 let _ = rx.recv();
                 let mut first = true;
@@ -256,7 +264,7 @@ impl Scenario for Clones {
                     }
                     first = false;
                 };
-                let r = std::panic::catch_unwind(std::panic::AssertUnwindSafe(|| run_script(&mut ar, &sc, &names, &mut gate)));
+                let r = std::panic::catch_unwind(std::panic::AssertUnwindSafe(|| run_script(ar, &sc, &names, &mut gate)));
                 let _ = done.send((k, true));
                 r.map_err(|_| take_panic())
             }));
@@ -450,10 +458,13 @@ impl Scenario for ClonesShuttle {
             };
             let mut hs = vec![];
             for sc in scripts.iter() {
-                let mut ar = base.clone();
+                let ar = ForceSend(base.clone());
                 let sc = sc.clone();
                 let names = names.clone();
-                hs.push(shuttle::thread::spawn(move || run_script(&mut ar, &sc, &names, &mut || {})));
+                hs.push(shuttle::thread::spawn(move || {
+                    let mut ar = { ar }.0;
+                    run_script(&mut ar, &sc, &names, &mut || {})
+                }));
             }
             drop(base);
             let mut steps = 0u64;
